@@ -242,10 +242,19 @@ class FnTr:
                 elif isinstance(st, ast.Call) and isinstance(st.func, ast.Attribute) and st.func.attr == "append" \
                         and len(st.args) == 1 and self.vkey(st.func.value) is not None:
                     self.bind(st.func.value, ("list", self.etype(st.args[0])))
+                elif isinstance(st, ast.Match):
+                    for c in st.cases:
+                        if isinstance(c.pattern, ast.MatchClass) and isinstance(c.pattern.cls, ast.Name) \
+                                and c.pattern.cls.id in ACTIONS:
+                            _, tys, names = ACTIONS[c.pattern.cls.id]
+                            for t2, n2 in zip(tys, names):
+                                self.vtypes["cp_action_" + n2] = ("enum", "StorageType") if t2 == "enum" else t2
                 elif isinstance(st, ast.For):
                     it = st.iter
-                    if isinstance(it, ast.Call) and isinstance(it.func, ast.Name) and it.func.id == "range":
+                    if isinstance(it, ast.Call) and isinstance(it.func, ast.Name) and it.func.id in ("range", "sorted_desc_indices_"):
                         self.bind(st.target, "Int")
+                    elif isinstance(it, ast.Call) and isinstance(it.func, ast.Name) and it.func.id == "schedule_actions_":
+                        self.bind(st.target, ("struct", "PyAction"))
                     elif isinstance(it, ast.Call) and isinstance(it.func, ast.Name) and it.func.id == "enumerate":
                         lt = self.etype(it.args[0])
                         if isinstance(st.target, ast.Tuple) and len(st.target.elts) == 2:
@@ -313,6 +322,8 @@ class FnTr:
                 return "Bool"
             if isinstance(e.value, int):
                 return "Int"
+            if isinstance(e.value, float):
+                return "Rat"        # floats are exact rationals
             if isinstance(e.value, str):
                 return "String"
             raise Unsupported("constant %r" % (e.value,))
@@ -418,6 +429,10 @@ class FnTr:
         if isinstance(e, ast.Call) and isinstance(e.func, ast.Name) and e.func.id == "tuple" and len(e.args) == 1 \
                 and isinstance(e.args[0], ast.GeneratorExp):
             return ("list", self.etype(e.args[0].elt))
+        if isinstance(e, ast.Call) and isinstance(e.func, ast.Name) and e.func.id == "tuple" and len(e.args) == 1 \
+                and isinstance(e.args[0], ast.Name) and self.etype(e.args[0]) is not None \
+                and not isinstance(self.etype(e.args[0]), str) and self.etype(e.args[0])[0] == "list":
+            return self.etype(e.args[0])       # tuple(list): sequences are lists
         if isinstance(e, ast.Call) and isinstance(e.func, ast.Name) and e.func.id in self.oracles:
             return self.oracles[e.func.id][1]
         if isinstance(e, ast.Call) and isinstance(e.func, ast.Name):
@@ -474,6 +489,10 @@ class FnTr:
                 return "true" if e.value else "false"
             if isinstance(e.value, int):
                 return "(%d : Int)" % e.value if e.value >= 0 else "(-%d : Int)" % -e.value
+            if isinstance(e.value, float):
+                from fractions import Fraction
+                q = Fraction(e.value)       # the exact value of the float literal
+                return "(%d : Rat)" % q.numerator if q.denominator == 1 and q >= 0 else "((%d : Rat) / %d)" % (q.numerator, q.denominator)
             if isinstance(e.value, str):
                 return '"%s"' % e.value.replace("\\", "\\\\").replace('"', '\\"')
             raise Unsupported("constant")
@@ -639,6 +658,9 @@ class FnTr:
             raise Unsupported("subscript of %r" % (bt,))
         if isinstance(e, ast.Call) and isinstance(e.func, ast.Attribute) and e.func.attr == "count" and len(e.args) == 1:
             return "((List.count %s %s : Nat) : Int)" % (self.expr(e.args[0]), self.expr(e.func.value))
+        if isinstance(e, ast.Call) and isinstance(e.func, ast.Name) and e.func.id == "tuple" and len(e.args) == 1 \
+                and isinstance(e.args[0], ast.Name):
+            return self.expr(e.args[0])
         if isinstance(e, ast.Call) and isinstance(e.func, ast.Name) and e.func.id == "tuple" and len(e.args) == 1 \
                 and isinstance(e.args[0], ast.GeneratorExp):
             g = e.args[0]
@@ -1152,6 +1174,21 @@ class FnTr:
                         out.append("%slet mut %s : %s := %s%s" % (ind, self.vn(k), ty_str(self.vtypes[k]), tmp, pr))
                         defined.add(k)
                 continue
+            if isinstance(st, ast.Match):
+                if not isinstance(st.subject, ast.Name):
+                    raise Unsupported("match on an expression")
+                out.append("%smatch %s with" % (ind, self.vn(st.subject.id)))
+                for c in st.cases:
+                    pt = c.pattern
+                    if not (isinstance(pt, ast.MatchClass) and isinstance(pt.cls, ast.Name) and pt.cls.id in ACTIONS
+                            and not pt.patterns and not pt.kwd_attrs and c.guard is None):
+                        raise Unsupported("match pattern")
+                    con, _, names = ACTIONS[pt.cls.id]
+                    out.append("%s| .%s%s =>" % (ind, con, "".join(" cp_action_" + n2 for n2 in names)))
+                    d2 = set(defined) | {"cp_action_" + n2 for n2 in names}
+                    arm = self.block(c.body, ind + "    ", d2, in_loop=in_loop)
+                    out.extend(arm if arm else ["%s    pure ()" % ind])
+                continue
             if isinstance(st, ast.Expr) and isinstance(st.value, ast.Yield):
                 if not self.gen:
                     raise Unsupported("yield outside a generator translation")
@@ -1544,6 +1581,21 @@ class FnTr:
                 raise Unsupported("enumerate with a used element variable")
             d = set(defined)
             d.add(i_.id)
+        elif isinstance(it, ast.Call) and isinstance(it.func, ast.Name) and it.func.id == "schedule_actions_" \
+                and isinstance(st.target, ast.Name) and len(it.args) == 4:
+            if "multistage_actions" not in self.ctx.fns_lean:
+                raise Unsupported("the nested schedule's constructor / generator is not translated")
+            self.uses_fuel = True
+            out.append("%sfor %s in (← multistage_actions fuel %s) do" % (
+                ind, self.vn(st.target.id), " ".join(self.expr(a, "num") for a in it.args)))
+            d = set(defined)
+            d.add(st.target.id)
+        elif isinstance(it, ast.Call) and isinstance(it.func, ast.Name) and it.func.id == "sorted_desc_indices_" \
+                and isinstance(st.target, ast.Name) and len(it.args) == 2:
+            out.append("%sfor %s in pySortedDescIdx %s %s do" % (ind, self.vn(st.target.id), self.expr(it.args[0]),
+                                                                 self.expr(it.args[1], "num")))
+            d = set(defined)
+            d.add(st.target.id)
         else:
             raise Unsupported("for over %s" % ast.dump(it)[:60])
         out.extend(self.block(st.body, ind + "  ", d, in_loop=True))
@@ -2014,6 +2066,113 @@ def const_defaults(node):
     return out
 
 
+DRIVER_EXPECTED = """while True:
+    cp_action = next(cp_schedule)
+    action(cp_action)
+    if isinstance(cp_action, EndReverse):
+        break"""
+SORTED_EXPECTED = "sorted(enumerate(weights), key=itemgetter(1), reverse=True)[:snapshots_in_ram]"
+
+
+def preprocess_allocate(fn):
+    """`allocate_snapshots` (multistage.py): the dry run of a nested schedule object through `functools.singledispatch`
+    handlers.  Rewritten (each shape is compared with the expected text, anything else is Unsupported) into
+        for cp_action in schedule_actions_(<constructor arguments>):      # the driver loop, see `multistage_actions`
+            match cp_action:  case Copy(): <body of the handler registered for Copy> …   # cp_action.x ↦ the field
+        for i in sorted_desc_indices_(weights, snapshots_in_ram): …       # sorted(enumerate(w), key=itemgetter(1), reverse=True)[:k]
+    `nonlocal` declarations disappear (the handlers are inlined), `w[i] += x` ↦ `w[i] = w[i] + x`."""
+    import copy
+    fn = copy.deepcopy(fn)
+    handlers = {}
+    default = None
+    ctor = None
+    body = []
+    disp = None
+    for st in fn.body:
+        if isinstance(st, ast.FunctionDef):
+            decos = [ast.unparse(d) for d in st.decorator_list]
+            if decos == ["functools.singledispatch"]:
+                if len(st.args.args) != 1:
+                    raise Unsupported("dispatch function with several parameters")
+                disp = st.name
+                default = (st.args.args[0].arg, st.body)
+                continue
+            regs = []
+            for d in st.decorator_list:
+                if isinstance(d, ast.Call) and isinstance(d.func, ast.Attribute) and d.func.attr == "register" \
+                        and isinstance(d.func.value, ast.Name) and d.func.value.id == disp and len(d.args) == 1 \
+                        and isinstance(d.args[0], ast.Name) and d.args[0].id in ACTIONS:
+                    regs.append(d.args[0].id)
+                else:
+                    raise Unsupported("decorator %s of a nested function" % ast.unparse(d))
+            if not regs or len(st.args.args) != 1:
+                raise Unsupported("nested function %s" % st.name)
+            hb = [b for b in st.body if not isinstance(b, ast.Nonlocal)]
+            for c in regs:
+                if c in handlers:
+                    raise Unsupported("two handlers for %s" % c)
+                handlers[c] = (st.args.args[0].arg, hb)
+            continue
+        if isinstance(st, ast.Assign) and len(st.targets) == 1 and isinstance(st.targets[0], ast.Name) \
+                and st.targets[0].id == "cp_schedule":
+            v = st.value
+            if not (isinstance(v, ast.Call) and isinstance(v.func, ast.Name) and v.func.id == "MultistageCheckpointSchedule"
+                    and len(v.args) == 3 and [k.arg for k in v.keywords] == ["trajectory"]):
+                raise Unsupported("construction of the nested schedule changed")
+            ctor = list(v.args) + [v.keywords[0].value]
+            continue
+        if isinstance(st, ast.While):
+            if ast.unparse(st) != DRIVER_EXPECTED or disp != "action" or ctor is None:
+                raise Unsupported("the driver loop of allocate_snapshots changed")
+            cases = []
+            for cls in ACTIONS:
+                par, hb = handlers.get(cls, default)
+                fields = ACTIONS[cls][2]
+
+                class Ren(ast.NodeTransformer):
+                    def visit_Attribute(s2, node):
+                        s2.generic_visit(node)
+                        if isinstance(node.value, ast.Name) and node.value.id == par:
+                            if node.attr not in fields:
+                                raise Unsupported("attribute %s of a %s action" % (node.attr, cls))
+                            return ast.copy_location(ast.Name(id="cp_action_" + node.attr, ctx=node.ctx), node)
+                        return node
+
+                    def visit_AugAssign(s2, node):
+                        s2.generic_visit(node)
+                        if isinstance(node.target, ast.Subscript):
+                            ld = copy.deepcopy(node.target)
+                            ld.ctx = ast.Load()
+                            return ast.copy_location(ast.Assign(targets=[node.target], value=ast.BinOp(left=ld, op=node.op, right=node.value)), node)
+                        return node
+                hb2 = [Ren().visit(copy.deepcopy(b)) for b in hb]
+                for b in hb2:
+                    for x in ast.walk(b):
+                        if isinstance(x, ast.Name) and x.id == par:
+                            raise Unsupported("the action object itself is used in a handler")
+                cases.append(ast.match_case(pattern=ast.MatchClass(cls=ast.Name(id=cls, ctx=ast.Load()), patterns=[], kwd_attrs=[], kwd_patterns=[]),
+                                            guard=None, body=hb2))
+            loop = ast.For(target=ast.Name(id="cp_action", ctx=ast.Store()),
+                           iter=ast.Call(func=ast.Name(id="schedule_actions_", ctx=ast.Load()), args=ctor, keywords=[]),
+                           body=[ast.Match(subject=ast.Name(id="cp_action", ctx=ast.Load()), cases=cases)], orelse=[])
+            body.append(ast.copy_location(loop, st))
+            continue
+        if isinstance(st, ast.For) and isinstance(st.iter, ast.Subscript) and "sorted" in ast.unparse(st.iter):
+            if ast.unparse(st.iter) != SORTED_EXPECTED or ast.unparse(st.target) != "(i, _)":
+                raise Unsupported("the sorted(...) loop of allocate_snapshots changed")
+            st.iter = ast.Call(func=ast.Name(id="sorted_desc_indices_", ctx=ast.Load()),
+                               args=[ast.Name(id="weights", ctx=ast.Load()), ast.Name(id="snapshots_in_ram", ctx=ast.Load())], keywords=[])
+            st.target = ast.Name(id="i", ctx=ast.Store())
+            body.append(st)
+            continue
+        body.append(st)
+    if ctor is None or not handlers:
+        raise Unsupported("allocate_snapshots no longer has the expected structure")
+    fn.body = body
+    ast.fix_missing_locations(fn)
+    return fn
+
+
 def find_def(tree, qual):
     parts = qual.split(".")
     body = tree.body
@@ -2173,6 +2332,30 @@ GENERATORS = [
 ]
 
 
+MULTISTAGE_ACTIONS_TEXT = """/-- the nested schedule of `allocate_snapshots`:
+`cp_schedule = MultistageCheckpointSchedule(max_n, snapshots, 0, trajectory=…)` (the generated constructor; with no
+disk units it never asks for an allocation: the oracle raises) driven by
+`while True: cp_action = next(cp_schedule); action(cp_action); if isinstance(cp_action, EndReverse): break` —
+the actions up to and including the first `EndReverse` (`StopIteration` if the generator ends before one).
+The generator is run to its end first: if it raises, that exception is the result even where Python would have
+raised from a handler at an earlier action. -/
+def multistage_actions (fuel : Nat) (max_n : Int) (snapshots_in_ram : Int) (snapshots_on_disk : Int) (trajectory : String) : M (List PyAction) := do
+  let (n, r, mx, ram, disk, storage, ex, tr) ← multistage_init max_n snapshots_in_ram snapshots_on_disk trajectory
+    (fun _ _ _ _ => throw .notImplementedError)
+  let evs ← multistage_iterator fuel n r mx ram disk storage tr ex
+  let k := evs.findIdx (fun e => e.act = .endReverse)
+  if k = evs.length then throw .stopIteration
+  pure ((evs.take (k + 1)).map (·.act))"""
+
+# functions translated after the constructors and generators they use
+LATE_FUNCTIONS = [
+    ("multistage.py", "allocate_snapshots", "allocate_snapshots",
+     {"write_weight": "Rat", "read_weight": "Rat", "delete_weight": "Rat", "trajectory": "String"},
+     {"allocate": True, "needs": ["multistage_init", "multistage_iterator"],
+      "pre_text": MULTISTAGE_ACTIONS_TEXT, "pre_names": ["multistage_actions"]}),
+]
+
+
 def translate_enum(tree, name):
     node = find_def(tree, name)
     members = []
@@ -2259,6 +2442,8 @@ def generate(repo):
             node = expand_kwargs(node, tree("hrevolve_sequences/utils.py"))
         if opts.get("last_leaf"):
             node = last_leaf_pattern(node)
+        if opts.get("allocate"):
+            node = preprocess_allocate(node)
         if node.args.vararg or node.args.kwarg:
             raise Unsupported("*args/**kwargs")
         if opts.get("split_dict_keys"):
@@ -2361,6 +2546,23 @@ def generate(repo):
                 chunks.append(text)
                 status[lean] = "ok"
             except (Unsupported, SyntaxError, OSError, KeyError, IndexError, TypeError, AttributeError) as e:
+                status[lean] = "untranslatable: %s: %s" % (type(e).__name__, e)
+        for f, qual, lean, ptypes, opts in LATE_FUNCTIONS:
+            try:
+                if opts.get("needs") and any(status.get(x) != "ok" for x in opts["needs"]):
+                    raise Unsupported("needs %s" % ", ".join(x for x in opts["needs"] if status.get(x) != "ok"))
+                if opts.get("pre_text"):
+                    chunks.append(opts["pre_text"])
+                    ctx.fns_lean.update(opts.get("pre_names", []))
+                node, _ = prepare(f, qual, opts)
+                tr = FnTr(ctx, node, qual.split(".")[-1], lean, ptypes, False,
+                          src="%s:%d-%d" % (f, node.lineno, node.end_lineno))
+                text, fuel = tr.emit()
+                chunks.append(text)
+                status[lean] = "ok"
+            except (Unsupported, SyntaxError, OSError, KeyError, IndexError, TypeError, AttributeError) as e:
+                if opts.get("pre_text") and chunks and chunks[-1] == opts["pre_text"]:
+                    chunks.pop()
                 status[lean] = "untranslatable: %s: %s" % (type(e).__name__, e)
     header = ("/-\n  GENERATED by harness/py2lean.py from the Python sources of /repo (checkpoint_schedules).\n"
               "  Do not edit: the file is regenerated on every check run and compared with this text.\n-/\n"
